@@ -34,6 +34,10 @@ def run(repo: Repo, tier: str, res: CheckResult, seed: int = 0) -> None:
     res.count("TV.dumper-programs", n2, 200)
     genprog.c03_layout_checks(repo, tier, res, seed)
     overlay_ancestors(repo, res)
+    # hidden memos in the layout stage and the generators (shared rule family of C11): a sieve / crown cached under a key
+    # that compares the user's default by == serves `0` with the sieve of `False`
+    from .. import memo
+    memo.check(repo, res, "C03", only=("/morphing/name_layout/", "/morphing/model/"), floors=False)
     res.assumptions = list(ASSUMPTIONS)
 
 
